@@ -75,14 +75,14 @@ func (f *WithInputFromString) Call(s *slip.Scope, args slip.List, depth int) (re
 	d2 := depth + 1
 	subArgs = subArgs[2:]
 	if v, has := slip.GetArgsKeyValue(subArgs, slip.Symbol(":start")); has {
-		if num, ok2 := s.Eval(v, depth).(slip.Fixnum); ok2 && 0 <= num && int(num) < len(ra) {
+		if num, ok2 := s.Eval(v, depth).(slip.Fixnum); ok2 && 0 <= num && int(num) <= len(ra) {
 			start = int(num)
 		} else {
 			slip.TypePanic(s, depth, ":start", v, (fmt.Sprintf("fixnum between 0 and %d", len(ra))))
 		}
 	}
 	if v, has := slip.GetArgsKeyValue(subArgs, slip.Symbol(":end")); has {
-		if num, ok2 := s.Eval(v, depth).(slip.Fixnum); ok2 && 0 <= num && int(num) < len(ra) && start <= int(num) {
+		if num, ok2 := s.Eval(v, depth).(slip.Fixnum); ok2 && 0 <= num && int(num) <= len(ra) && start <= int(num) {
 			end = int(num)
 		} else {
 			slip.TypePanic(s, depth, ":end", v, (fmt.Sprintf("fixnum between %d and %d", start, len(ra))))
